@@ -143,6 +143,19 @@ def run(ctx):
              pc.loc(), why_fail=repr(res))
     # md
     mt = ctx.func("pyxform.xls2json_backends:_md_table_to_ss_structure", "C12.R2")
+    # only "\n" separates rows: the other characters str.splitlines() treats as line ends are legal cell content
+    # (a spreadsheet cell holds them as ordinary text), so a Markdown table carrying them keeps its cells whole
+    for ch_name, ch in (("U+2028 LINE SEPARATOR", "\u2028"), ("U+2029 PARAGRAPH SEPARATOR", "\u2029"), ("U+0085 NEXT LINE", "\x85"), ("U+000B VERTICAL TAB", "\x0b"), ("U+000C FORM FEED", "\x0c")):
+        it.reset([])
+        mdu = f"| survey |\n| | type | name | label |\n| | text | q1 | before{ch}after |\n| | text | q2 | L2 |\n"
+        try:
+            stu = it.call_function(mt, [mdu], {}, None, mt.node)
+            rows_u = stu.get("survey") if isinstance(stu, dict) else None
+            cells = [c for row in (rows_u or []) for c in row]
+            oku = isinstance(rows_u, list) and len(rows_u) == 3 and any(isinstance(c, str) and c.strip() == f"before{ch}after" for c in cells)
+        except Raised as e:
+            oku, rows_u = False, f"raises {e.exc_name}"
+        r2.check(oku, f"md_to_dict:cell containing {ch_name}", "the character stays inside its cell; the table keeps its rows", mt.loc(), why_fail=repr(rows_u)[:200])
     it.reset([])
     md = "| survey |\n| | type | name |\n| | text | q1 |\n| | | |\n| | text | q2 |\n"
     st = it.call_function(mt, [md], {}, None, mt.node)
